@@ -75,6 +75,14 @@ func run(c *h.Ctx, cs Case) {
 			}
 		}
 	}
+	if !principalOK {
+		// ... and whatever a store that fails one lookup (each in turn) does to the verdict
+		if how, ok := chain.FlakyAllowed(b, len(cs.Links), nil); ok {
+			k := firstBroken(r, 1, 6)
+			c.Fail(fmt.Sprintf("C01/flaky-loader/allowed-without-R%d", k), "ExecutionAllowed returned nil although rule R%d is violated (broken rules %v); %s\ncase: %+v", k, r.Broken(), how, cs)
+		}
+		c.P.Class("flaky-loader")
+	}
 	// history clause: the decision is about the loader handed to THIS call. After an allowed
 	// check, the same token object checked against a loader that has lost one delegation
 	// (or fails on it) must be denied.
